@@ -752,6 +752,24 @@ func (ev *Eval) callExpr(x *ast.CallExpr) *Val {
 		return vInt("(+ (* 16777216 "+at(0)+") (* 65536 "+at(1)+") (* 256 "+at(2)+") "+at(3)+")", nil)
 	case "ref":
 		return vInt(objectID(arg(0)), nil)
+	case "has":
+		m, k := arg(0), arg(1)
+		if mt, ok := m.Ty.Underlying().(*types.Map); ok && m.K == KMap {
+			return vBool(f.mapHas(ev.st, m, k, mt))
+		}
+	case "nseen":
+		m := arg(0)
+		if m.K == KMap {
+			return vInt(sel(f.heap(ev.st, "R:cnt", "(Array Int Int)"), m.T), nil)
+		}
+	case "seen":
+		m, k := arg(0), arg(1)
+		if mt, ok := m.Ty.Underlying().(*types.Map); ok && m.K == KMap {
+			kt, ks, ok := f.keyTerm(k, mt.Key())
+			if ok {
+				return vBool(sel(sel(f.heap(ev.st, "R:seen."+ks, "(Array Int (Array "+ks+" Bool))"), m.T), kt))
+			}
+		}
 	case "off":
 		v := arg(0)
 		if v.K == KSlice {
